@@ -9,7 +9,7 @@ import tempfile
 from harness.lib import hx, cz, clist
 
 ID = 'C15'
-RULE = ('well-formed BED3 / BED6 / FASTQ / two-line FASTA files of 1..5 records with ONE violation (non-numeric in an int column, '
+RULE = ('well-formed BED3 / BED6 / FASTQ / two-line FASTA / wrapped FASTA files of 1..5 records with ONE violation (non-numeric in an int column, '
         'character outside the strand alphabet, record not starting with its marker, missing "+" line, different column count) '
         'injected at every record position x every chunk size 1..size+2 and whole read x {lazy, eager} x {BytesIO reader in seek / '
         'prepend mode, real plain / .gz file through bnp.open}; plus unviolated controls. non-trivial = violation not in the first '
@@ -37,6 +37,9 @@ def _records(fmt, n, rng):
             recs.append([b'@r%d\n' % i, s + b'\n', b'+\n', b'!' * len(s) + b'\n'])
         elif fmt == 'fa2':
             recs.append([b'>s%d\n' % i, b'ACGTTGCA'[:1 + (i * 5) % 8] + b'\n'])
+        elif fmt == 'mfa':
+            s = b'ACGTTGCAAC'[:1 + (i * 7) % 10]
+            recs.append([b'>w%d\n' % i] + [s[j:j + 4] + b'\n' for j in range(0, len(s), 4)])
     return recs
 
 
@@ -62,17 +65,20 @@ def _violate(fmt, recs, r, cls):
     return recs
 
 
-CLASSES = {'bed3': ['int', 'ncols_more', 'ncols_less'], 'bed6': ['strand', 'int', 'ncols_less'], 'fq': ['marker', 'plus'], 'fa2': ['marker']}
+CLASSES = {'bed3': ['int', 'ncols_more', 'ncols_less'], 'bed6': ['strand', 'int', 'ncols_less'], 'fq': ['marker', 'plus'], 'fa2': ['marker'], 'mfa': ['marker']}
 
 
 def generate(tier, seed):
     rng = random.Random(seed * 7907 + 15)
     cases = []
     ns = [1, 2, 3, 4] if tier == 'quick' else [1, 2, 3, 4, 5, 6]
-    for fmt in ('bed3', 'bed6', 'fq', 'fa2'):
+    for fmt in ('bed3', 'bed6', 'fq', 'fa2', 'mfa'):
         for n in ns:
             base = _records(fmt, n, rng)
             variants = [(None, None)] + [(cls, r) for cls in CLASSES[fmt] for r in range(n)]
+            if fmt == 'mfa':
+                # wrapped FASTA: only the first record can lack its marker (a later line without '>' is sequence text)
+                variants = [('marker', 0)]
             for cls, r in variants:
                 recs = base if cls is None else _violate(fmt, base, r, cls)
                 lines_per = len(base[0])
@@ -101,7 +107,8 @@ def _buffer(fmt):
     from bionumpy.io.delimited_buffers import BedBuffer, Bed6Buffer
     from bionumpy.io.fastq_buffer import FastQBuffer
     from bionumpy.io.one_line_buffer import TwoLineFastaBuffer
-    return {'bed3': BedBuffer, 'bed6': Bed6Buffer, 'fq': FastQBuffer, 'fa2': TwoLineFastaBuffer}[fmt]
+    from bionumpy.io.multiline_buffer import MultiLineFastaBuffer
+    return {'mfa': MultiLineFastaBuffer, 'bed3': BedBuffer, 'bed6': Bed6Buffer, 'fq': FastQBuffer, 'fa2': TwoLineFastaBuffer}[fmt]
 
 
 def observe(case):
@@ -120,7 +127,7 @@ def observe(case):
             rd = NpDataclassReader(r, lazy=case['lazy'])
         else:
             d = tempfile.mkdtemp(prefix='c15_')
-            path = os.path.join(d, 'f.' + {'bed3': 'bed', 'bed6': 'bed', 'fq': 'fq', 'fa2': 'fa'}[case['fmt']] + ('.gz' if case['route'] == 'gz' else ''))
+            path = os.path.join(d, 'f.' + {'bed3': 'bed', 'bed6': 'bed', 'fq': 'fq', 'fa2': 'fa', 'mfa': 'fa'}[case['fmt']] + ('.gz' if case['route'] == 'gz' else ''))
             with (gzip.open(path, 'wb') if case['route'] == 'gz' else open(path, 'wb')) as f:
                 f.write(data)
             rd = bnp.open(path, buffer_type=_buffer(case['fmt']), lazy=case['lazy'])
@@ -152,7 +159,7 @@ def _obs(o):
 def to_coq(case, o):
     data = bytes.fromhex(case['data'])
     mode = 'Prepend' if case['route'] in ('prepend', 'gz') else 'Seek'
-    if case['cls'] in ('ncols_more', 'ncols_less'):
+    if case['cls'] in ('ncols_more', 'ncols_less') or case['fmt'] == 'mfa':
         return 'CSpecOnly %s (%s)' % (cz(case['expected']), _obs(o))
     if case['fmt'] in TYS:
         return 'CDelim %s %s %s %s (%s)' % (TYS[case['fmt']], mode, cz(case['k']), hx(data), _obs(o))
